@@ -62,3 +62,25 @@ def emitLight (optional : List String) (isSet : String → Bool) : List String :
   "color" :: optional.flatMap (fun p => if isSet p then [p] else [])
 
 end Pyc.Schema
+
+namespace Pyc.Schema
+
+/-- `<asset>` as Asset._recreateXmlNode builds it: contributors, created, (keywords), modified,
+    (revision), (subject), (title), (unit), up_axis -/
+def emitAsset (ncontrib : Nat) (kw rev subj title unit : Bool) : List String :=
+  List.replicate ncontrib "contributor" ++ ["created"] ++ (if kw then ["keywords"] else []) ++ ["modified"]
+  ++ (if rev then ["revision"] else []) ++ (if subj then ["subject"] else []) ++ (if title then ["title"] else [])
+  ++ (if unit then ["unit"] else []) ++ ["up_axis"]
+
+/-- `<contributor>`: the fields that are set, in schema order (where save() inserts a newly set one) -/
+def emitContributor (s : String → Bool) : List String :=
+  ["author", "authoring_tool", "comments", "copyright", "source_data"].flatMap (fun p => if s p then [p] else [])
+
+/-- `<perspective>` / `<orthographic>` as Camera._recreateXmlNode builds it: x, y, aspect_ratio (those given), znear, zfar -/
+def emitCamera (xname yname : String) (x y aspect : Bool) : List String :=
+  (if x then [xname] else []) ++ (if y then [yname] else []) ++ (if aspect then ["aspect_ratio"] else []) ++ ["znear", "zfar"]
+
+/-- `<scene>`: the default scene instance when there is one -/
+def emitSceneElem (hasScene : Bool) : List String := if hasScene then ["instance_visual_scene"] else []
+
+end Pyc.Schema
